@@ -365,7 +365,7 @@ def check_apply(case):
 
 @st.composite
 def sync_cases(draw):
-    flavour = draw(st.sampled_from(["def", "async", "partial", "obj", "obj-awaitable", "def-mixed", "class",
+    flavour = draw(st.sampled_from(["def", "async", "partial", "obj", "obj-awaitable", "def-mixed", "def-mixed", "def-mixed", "class",
                                     "class-async-call", "method", "async-method", "lambda-coro", "attribute", "wrapped-facade",
                                     "asyncgen-fn", "asyncgen-partial"]))
     if flavour in ("asyncgen-fn", "asyncgen-partial"):
@@ -375,7 +375,7 @@ def sync_cases(draw):
     elif flavour == "def-mixed":
         kinds = st.sampled_from(["plain", "coroutine", "object", "raise", "suspending", "futurelike",
                                  "coroutine-raises", "falsy-awaitable", "grumpy-plain", "gencoro", "plain-generator",
-                                 "plain-generator", "cfuture"])
+                                 "plain-generator", "cfuture", "cfuture"])
     else:
         kinds = st.sampled_from(["value", "raise"])
     return {"adapter": "sync", "flavour": flavour, "calls": draw(st.lists(kinds, min_size=1, max_size=4)),
